@@ -300,6 +300,21 @@ def rule_T1(text):
             body = '{ ' + body + ' }'
         text = text[:m.start()] + 'for %s in %s %s' % (var, m.group('range').strip(), body) + text[end:]
         fired += 1
+    # the same loop written over the elements: for X in V.iter_mut() { ..X.f()..*X.. }  ->  for verif_k in 0..V.len() { ..V[verif_k].f()..V[verif_k].. }
+    while True:
+        mask = code_mask(text)
+        hit = _for_over_iter(text, mask, 'iter_mut')
+        if not hit:
+            break
+        m, body, end = hit
+        var, vec = m.group('var').strip(), m.group('vec')
+        inner = body[1:-1]
+        inner2 = re.sub(r'\*\s*' + re.escape(var) + r'\b', '%s[verif_k]' % vec, inner)
+        inner2 = re.sub(r'\b' + re.escape(var) + r'\s*\.', '%s[verif_k].' % vec, inner2)
+        if re.search(r'\b' + re.escape(var) + r'\b', code_mask(inner2)):
+            raise ExtractError('T1: element variable used other than as *%s or %s.method()' % (var, var))
+        text = text[:m.start()] + 'for verif_k in 0..%s.len() {%s}' % (vec, inner2) + text[end:]
+        fired += 1
     return text, fired
 
 
@@ -703,7 +718,54 @@ def rule_T18(text):
     return text, fired
 
 
-RULES = {'T1': rule_T1, 'T2': rule_T2, 'T3': rule_T3, 'T5': rule_T5, 'T9': rule_T9, 'T10': rule_T10, 'T11': rule_T11, 'T12': rule_T12, 'T13': rule_T13, 'T14': rule_T14, 'T15': rule_T15, 'T16': rule_T16, 'T17': rule_T17, 'T18': rule_T18}
+def rule_T19(text):
+    """a vector built element by element from an expression that does not depend on the position:
+         let V = (A..B).map(|_| EXPR).collect::<..>();           (A, B: literals or field paths)
+      -> let mut V = Vec::new(); let mut verif_n: usize = A; while verif_n < B { V.push(EXPR); verif_n += 1; }
+         V.resize_with(N, || EXPR);                               (N: a literal or field path)
+      -> let mut verif_n: usize = V.len(); if verif_n > N { V.truncate(N); } while verif_n < N { V.push(EXPR); verif_n += 1; }
+    (the definitions of Iterator::map / collect over an exact-size range and of Vec::resize_with; the capacity hint is dropped)"""
+    fired = 0
+    path = r'[\w\.]+'
+    while True:
+        mask = code_mask(text)
+        m = re.search(r'\blet\s+(?P<v>\w+)\s*=\s*\(\s*(?P<a>' + path + r')\s*\.\.\s*(?P<b>' + path + r')\s*\)\s*\.map\s*(?P<op>\()\s*\|\s*_\w*\s*\|', mask)
+        if not m:
+            break
+        op = m.start('op')
+        cp = match_brace(mask, op, '(', ')')
+        expr = text[m.end():cp].strip()
+        t = re.match(r'\s*\.collect\s*(?:::\s*<[^;]*>)?\s*\(\s*\)\s*;', mask[cp + 1:])
+        if not t:
+            raise ExtractError('T19: `(A..B).map(|_| ..)` is not followed by `.collect();`')
+        ind = re.match(r'[ \t]*', text[text.rfind('\n', 0, m.start()) + 1:]).group(0)
+        v = m.group('v')
+        new = ('let mut %s = Vec::new();\n%slet mut verif_n: usize = %s;\n%swhile verif_n < %s {\n%s    %s.push(%s);\n%s    verif_n += 1;\n%s}'
+               % (v, ind, m.group('a'), ind, m.group('b'), ind, v, expr, ind, ind))
+        text = text[:m.start()] + new + text[cp + 1 + t.end():]
+        fired += 1
+    while True:
+        mask = code_mask(text)
+        m = re.search(r'(?<![\w\.])(?P<v>\w+)\s*\.resize_with\s*(?P<op>\()\s*(?P<n>' + path + r')\s*,\s*\|\s*\|', mask)
+        if not m:
+            break
+        op = m.start('op')
+        cp = match_brace(mask, op, '(', ')')
+        expr = text[m.end():cp].strip()
+        t = re.match(r'\s*;', mask[cp + 1:])
+        if not t:
+            raise ExtractError('T19: `V.resize_with(N, || ..)` is not a statement')
+        ind = re.match(r'[ \t]*', text[text.rfind('\n', 0, m.start()) + 1:]).group(0)
+        v, n = m.group('v'), m.group('n')
+        new = ('let mut verif_n: usize = %s.len();\n%sif verif_n > %s { %s.truncate(%s); }\n%swhile verif_n < %s {\n%s    %s.push(%s);\n%s    verif_n += 1;\n%s}'
+               % (v, ind, n, v, n, ind, n, ind, v, expr, ind, ind))
+        text = text[:m.start()] + new + text[cp + 1 + t.end():]
+        fired += 1
+    return text, fired
+
+
+
+RULES = {'T1': rule_T1, 'T2': rule_T2, 'T3': rule_T3, 'T5': rule_T5, 'T9': rule_T9, 'T10': rule_T10, 'T11': rule_T11, 'T12': rule_T12, 'T13': rule_T13, 'T14': rule_T14, 'T15': rule_T15, 'T16': rule_T16, 'T17': rule_T17, 'T18': rule_T18, 'T19': rule_T19}
 
 
 def t6_key(callees):
@@ -964,6 +1026,22 @@ def nth_loop_brace(body: str, k: int) -> int:
     return ob
 
 
+def rename_loop_var(body: str, k: int, want: str, where: str):
+    """the k-th loop is `for X in ..`: X is renamed (bound-variable renaming, inside that loop only) to the name the invariant uses"""
+    mask = code_mask(body)
+    loops = [m for m in re.finditer(r'\b(for|while|loop)\b', mask)]
+    if len(loops) < k:
+        return body, 0
+    m = loops[k - 1]
+    h = re.match(r'for\s+(\w+)\s+in\b', mask[m.start():])
+    if not h or h.group(1) == want:
+        return body, 0
+    ob = first_open_brace(mask, m.end())
+    cb = match_brace(mask, ob)
+    seg, n = alpha_rename(body[m.start():cb + 1], [h.group(1)], [want], '%s: loop #%d variable' % (where, k))
+    return body[:m.start()] + seg + body[cb + 1:], n
+
+
 def count_loops(body: str) -> int:
     return len(re.findall(r'\b(for|while|loop)\b', code_mask(body)))
 
@@ -1079,7 +1157,18 @@ def extract_fn(repo: str, spec: dict):
             raise ExtractError('%s::%s: signature substitution /%s/ did not apply' % (spec['file'], spec['fn'], pat))
         fired['S:' + pat] = n
     sig, where = name_return(sig.rstrip(), spec.get('ret', 'r'))
+    for (nm, ty) in spec.get('ascribe', []):
+        # a type ascription on a local (`let [mut] NAME = ..` -> `let [mut] NAME: TYPE = ..`): inference help only, no behaviour
+        mask = code_mask(body)
+        am = re.search(r'\blet\s+(?:mut\s+)?' + re.escape(nm) + r'(?=\s*=[^=])', mask)
+        if am:
+            body = body[:am.end()] + ': ' + ty + body[am.end():]
+            fired['ascribe:' + nm] = 1
     gone = loops_gone(body, spec, fired)
+    for k in sorted(spec.get('loop_vars', {}) if not gone else {}):
+        body, n = rename_loop_var(body, int(k), spec['loop_vars'][k], '%s::%s' % (spec['file'], spec['fn']))
+        if n:
+            fired['alpha-rename:loop%d->%s' % (int(k), spec['loop_vars'][k])] = n
     for k in sorted(spec.get('loop_tails', {}) if not gone else {}, reverse=True):
         ob = nth_loop_brace(body, int(k))
         cb = match_brace(code_mask(body), ob)
